@@ -140,6 +140,14 @@ class Case:
     def raised(self, op, e):
         cls = raising_prim(e) or "program"
         self.ctx.count(f"raises:{op}:{cls}")
+        if self.struct_stat == "sample-or-cost-after-mvd" and "environment.py:read" in common.exc_mechanism(e):
+            # same mechanism as the biased estimate: the pure continuation of flip_mvd skips the
+            # later sample site, whose value is then unbound when a later equation reads it
+            self.ctx.violation(
+                f"C29|op={op}|on=program|field=raises|cond=sample-or-cost-after-mvd",
+                **self.witness(detail=f"{type(e).__name__}: {str(e)[:300]}"),
+            )
+            return cls
         self.ctx.violation(
             f"C29|op={op}|on={cls}|field=raises|cond={common.exc_mechanism(e)}",
             **self.witness(detail=f"{type(e).__name__}: {str(e)[:300]}"),
